@@ -180,7 +180,7 @@ int Sim::timers_used() const {
   while (a && freeacts <= (int)node->Tmr.Max) { freeacts++; a = a->Next; }
   return (int)node->Tmr.Max - freeacts;
 }
-std::string Sim::tmr_check() const {
+std::string Sim::tmr_check(bool in_flight_ok) const {
   const CO_TMR *t = &node->Tmr; char buf[200];
   uint32_t max = t->Max, nfree = 0, nuse = 0, nel = 0, nfa = 0, nact = 0;
   std::vector<const void *> seen;
@@ -198,7 +198,7 @@ std::string Sim::tmr_check() const {
   }
   for (CO_TMR_ACTION *a = t->Acts; a; a = a->Next) { if (!once(a) || ++nfa > max) return "free action list cyclic or shared"; }
   if (nfree + nuse + nel != max) { snprintf(buf, sizeof buf, "time slots: free %u + pending %u + elapsed %u != capacity %u", nfree, nuse, nel, max); return buf; }
-  if (nfa + nact != max) { snprintf(buf, sizeof buf, "action slots: free %u + linked %u != capacity %u", nfa, nact, max); return buf; }
+  if (in_flight_ok ? (nfa + nact > max) : (nfa + nact != max)) { snprintf(buf, sizeof buf, "action slots: free %u + linked %u != capacity %u", nfa, nact, max); return buf; }
   return "";
 }
 
